@@ -491,3 +491,8 @@ UNITS['lemma_pipe'] = dict(name='lemma_pipe', engine='verus', module='verus_unit
 obl('C09.L-PIPE', 'composition lemma over C09.STORE-THEN-WAKE / DRAIN-THEN-SCAN / NO-DRAIN-AFTER-SCAN / SCAN-ALL / C10.CLEAR-ATOMIC / C09.HAS-SIGNALS', 'transition system of any number of deliveries and one consumer (blocking read, drain, scan): the consumer is never blocked while a slot is marked unless a byte is in the pipe or the marking delivery has not written its byte yet (inductive invariant, machine-checked)')
 PROPS['C09']['units'] = ['backend_small', 'backend', 'itermod', 'lemma_pipe']
 PROPS['C09']['trusted'] = [t for t in PROPS['C09']['trusted'] if 'L-PIPE' not in t] + ['the safety half of the property (never parked with an unreported signal and nothing outstanding) is the machine-checked lemma L-PIPE over the proved ordering contracts; that its steps are those contracts is by reading; "obtains it at least once" additionally needs fairness of the consumer loop (not decidable here)']
+
+UNITS['lemma_fifo'] = dict(name='lemma_fifo', engine='verus', module='verus_unit', entry='run_lemma', source='/verif/verus/l_fifo.rs', obligations=['C06.L-FIFO'], min_verified=5)
+obl('C06.L-FIFO', 'composition lemma over C06.ATOMIC / C06.OWN / C06.G-INV / C07.OWN-CELL / C07.EMPTY-MEANS-NONE', 'transition system of any number of senders/receivers whose steps are the successful CASes and owned cell accesses: received ++ still-queued == sent, in the order of the linearization points (push to / pop from `full`); a send finds no free index only if all five are queued or in flight (inductive invariant, machine-checked)')
+PROPS['C06']['units'] = ['channel', 'channel_priv', 'lemma_fifo']
+PROPS['C06']['trusted'] = L('A1', 'A7', 'A10') + ['linearizability: the lemma L-FIFO is machine-checked (Verus) over the step contracts; that its steps are exactly those contracts is by reading (A8 narrowed to this link)']
